@@ -74,9 +74,32 @@ func (g *Gen) writerReach(keys map[string]bool) map[*ssa.Function]bool {
 							mark(f)
 						}
 					}
+				case *ssa.MapUpdate:
+					if mt, ok := x.Map.Type().Underlying().(*types.Map); ok {
+						if keys["Md|"+typeKey(mt.Key())+"|"+typeKey(mt.Elem())] || keys["Mv|"+typeKey(mt.Key())+"|"+typeKey(mt.Elem())] {
+							mark(f)
+						}
+					}
 				case *ssa.MakeClosure:
 					if c, ok := x.Fn.(*ssa.Function); ok {
 						callers[c] = append(callers[c], f)
+					}
+				}
+				// delete(m, k) and stores through element / cell pointers of private arrays
+				if cc := callCommonOf(ins); cc != nil {
+					if b, ok := cc.Value.(*ssa.Builtin); ok && b.Name() == "delete" && len(cc.Args) > 0 {
+						if mt, ok := cc.Args[0].Type().Underlying().(*types.Map); ok {
+							if keys["Md|"+typeKey(mt.Key())+"|"+typeKey(mt.Elem())] {
+								mark(f)
+							}
+						}
+					}
+				}
+				if st, ok := ins.(*ssa.Store); ok {
+					if ia, ok := st.Addr.(*ssa.IndexAddr); ok {
+						if sl, ok := ia.X.Type().Underlying().(*types.Slice); ok && keys["A|"+typeKey(sl.Elem())] {
+							mark(f)
+						}
 					}
 				}
 				if cc := callCommonOf(ins); cc != nil {
